@@ -1544,6 +1544,7 @@ impl G {
       (if enums { 6 } else { 3 }, "match"),
       (2, "block"),
       (if enums { 2 } else { 1 }, "iflet"),
+      (if enums { 3 } else { 1 }, "ormatch"),
       (if clos { 4 } else { 1 }, "lamcall"),
       (if clos { 4 } else { 1 }, "fncall"),
     ];
@@ -1580,6 +1581,7 @@ impl G {
       "match" => self.p_match(ty, cx, d, want),
       "block" => self.p_block(ty, cx, d, want),
       "iflet" => self.p_iflet(ty, cx, d, want),
+      "ormatch" => self.p_ormatch(ty, cx, d, want),
       "lamcall" => self.p_lamcall(ty, cx, d, want),
       "fncall" => self.p_fncall(ty, cx, d, want),
       "lit" => self.p_leaf(ty, cx, want).or_else(|| Some(self.minimal(ty, cx, want))),
@@ -1631,7 +1633,8 @@ impl G {
         let a = self.gen(&Ty::Str, cx, d - 1, half);
         let b = self.gen(&Ty::Str, cx, d - 1, half);
         self.feat("str-concat");
-        Some(opx(format!("{} :: {}", par(&a), par(&b)), (0, a.r.1 + b.r.1)))
+        let (sa, sb) = self.operands(cx, &a, &b, true);
+        Some(opx(format!("{sa} :: {sb}"), (0, a.r.1 + b.r.1)))
       }
       "fromint" => {
         if want.1 < 11 {
@@ -2379,6 +2382,63 @@ impl G {
     }
   }
 
+  /// operand texts of a binary operator; sometimes both operands print when evaluated, so that the
+  /// left-to-right evaluation order of the operator is observable
+  fn operands(&mut self, cx: &Ctx, a: &E, b: &E, is_str: bool) -> (String, String) {
+    if !cx.pure && cx.mult <= 12 && self.rng.chance(1, 7) {
+      self.impure = true;
+      self.curlevel = self.curlevel.max(2);
+      self.feat("evalorder-binary");
+      self.spend(20 * cx.mult);
+      let f = if is_str { "traceStr" } else { "traceInt" };
+      return (format!("ShowStd.{f}({})", a.s), format!("ShowStd.{f}({})", b.s));
+    }
+    (par(a), par(b))
+  }
+
+  /// `match (e1, e2) { (V(x), _) | (_, V(x)) -> .., _ -> .. }`: overlapping alternatives that bind different
+  /// values (the first matching alternative decides)
+  fn p_ormatch(&mut self, ty: &Ty, cx: &Ctx, d: u32, want: R) -> Option<E> {
+    let mut tys: Vec<Ty> = self
+      .vpool(cx.module)
+      .into_iter()
+      .filter(|t| !self.is_rec(t) && !Self::is_list(t) && self.variants_of(t).map(|vs| vs.len() >= 2 && vs.iter().any(|v| !v.args.is_empty())).unwrap_or(false))
+      .collect();
+    tys.push(Ty::option(Ty::Int));
+    let et = tys[self.rng.below(tys.len())].clone();
+    let vs = self.variants_of(&et)?;
+    let pv: Vec<Variant> = vs.iter().filter(|v| !v.args.is_empty()).cloned().collect();
+    let v = pv[self.rng.below(pv.len())].clone();
+    let Ty::C(en, _) = &et else { return None };
+    let sd = d.saturating_sub(1).min(1);
+    let mut comps = vec![];
+    for _ in 0..2 {
+      if self.rng.chance(3, 5) {
+        let args: Vec<String> = v.args.iter().map(|(t, r)| self.gen(t, cx, sd, *r).s).collect();
+        comps.push(format!("{en}.{}{}({})", v.name, Self::targs(&et), args.join(", ")));
+      } else {
+        comps.push(self.gen(&et, cx, sd, self.dflt(&et)).s);
+      }
+    }
+    let (mut names, mut vars) = self.bind_holes(&v.args, false);
+    if vars.is_empty() {
+      let n = self.fresh("b");
+      vars.push(Var { name: n.clone(), ty: v.args[0].0.clone(), r: v.args[0].1, ld: 0 });
+      names[0] = Some(n);
+    }
+    let pat = format!("{}({})", v.name, names.iter().map(|n| n.clone().unwrap_or_else(|| "_".into())).collect::<Vec<_>>().join(", "));
+    let mut cx2 = cx.clone();
+    for x in vars {
+      cx2.push(&x.name, &x.ty, x.r);
+    }
+    let body = self.gen(ty, &cx2, d - 1, want);
+    let other = self.gen(ty, cx, d - 1, want);
+    for f in ["or-pattern-overlapping", "or-pattern", "or-pattern-binding", "match", "tuple-pattern", "nested-pattern", "wildcard-arm"] {
+      self.feat(f);
+    }
+    Some(opx(format!("match ({}, {}) {{\n({pat}, _) | (_, {pat}) -> {},\n_ -> {},\n}}", comps[0], comps[1], body.s, other.s), hull(body.r, other.r)))
+  }
+
   // ------------------------------------------------------------------ int productions
   fn p_arith(&mut self, cx: &Ctx, d: u32, want: R) -> Option<E> {
     let free = self.boundary && want == FULL;
@@ -2398,7 +2458,8 @@ impl G {
         };
         let a = self.gen_int(cx, d - 1, wa);
         let b = self.gen_int(cx, d - 1, wb);
-        Some(opx(format!("{} + {}", par(&a), par(&b)), radd(a.r, b.r)))
+        let (sa, sb) = self.operands(cx, &a, &b, false);
+        Some(opx(format!("{sa} + {sb}"), radd(a.r, b.r)))
       }
       3 | 4 => {
         let (wa, wb) = if free {
@@ -2410,7 +2471,8 @@ impl G {
         };
         let a = self.gen_int(cx, d - 1, wa);
         let b = self.gen_int(cx, d - 1, wb);
-        Some(opx(format!("{} - {}", par(&a), par(&b)), rminus(a.r, b.r)))
+        let (sa, sb) = self.operands(cx, &a, &b, false);
+        Some(opx(format!("{sa} - {sb}"), rminus(a.r, b.r)))
       }
       _ => {
         let (wa, wb) = if free {
@@ -2431,7 +2493,8 @@ impl G {
         };
         let a = self.gen_int(cx, d - 1, wa);
         let b = self.gen_int(cx, d - 1, wb);
-        Some(opx(format!("{} * {}", par(&a), par(&b)), rmul(a.r, b.r)))
+        let (sa, sb) = self.operands(cx, &a, &b, false);
+        Some(opx(format!("{sa} * {sb}"), rmul(a.r, b.r)))
       }
     }
   }
@@ -3901,6 +3964,8 @@ impl G {
   fn emit_showstd(&mut self) {
     let members = vec![
       "function showBool(b: bool): Str = if b { \"T\" } else { \"F\" }".to_string(),
+      "function traceInt(x: int): int = {\nProcess.println(\"tr\" :: Str.fromInt(x));\nx\n}".to_string(),
+      "function traceStr(s: Str): Str = {\nProcess.println(\"ts\" :: s);\ns\n}".to_string(),
       "function <T> showList(l: List<T>, f: (T) -> Str): Str = (\"[\" :: l.fold((acc, x) -> (acc :: f(x)) :: \";\", \"\")) :: \"]\"".to_string(),
       "function <T> showOpt(o: Option<T>, f: (T) -> Str): Str =\nmatch o {\nNone -> \"None\",\nSome(x) -> (\"Some(\" :: f(x)) :: \")\",\n}".to_string(),
       "function <A, B> showPair(p: Pair<A, B>, f: (A) -> Str, g: (B) -> Str): Str = (((\"<\" :: f(p.e0)) :: \",\") :: g(p.e1)) :: \">\"".to_string(),
